@@ -3,11 +3,11 @@
 package main
 
 import (
-	"sync"
 	"context"
 	"encoding/json"
 	"fmt"
 	"strings"
+	"sync"
 
 	mail "github.com/wneessen/go-mail"
 
